@@ -2049,11 +2049,95 @@ def _flush_evals(res, base):
     res.count('contract_evals', n)
 
 
+# ------------------------------------------------------------------------------
+# several application threads build function tasks at the same time (each
+# submitter thread of an application does): every payload decodes to the call
+# its own thread made
+#
+def _mark(tag, x, y=0, scale=1):
+    return '%s:%s' % (tag, (x + y) * scale)
+
+
+def encode_threads(res, rng, idx):
+    import time
+    import inspect
+    import threading as mt
+    from ..popsim import Perturb
+
+    seed = rng.randint(0, 2 ** 30)
+    # every function of the module (the encoder may be split over helpers)
+    funcs = [f for _, f in inspect.getmembers(m_pytask, inspect.isfunction)
+             if getattr(f, '__module__', '') == m_pytask.__name__]
+    for _, f in inspect.getmembers(m_pytask.PythonTask):
+        f = getattr(f, '__func__', f)
+        if inspect.isfunction(f):
+            funcs.append(f)
+    pert = Perturb(seed, 0.3, funcs=funcs)
+    old  = sys.getswitchinterval()
+    sys.setswitchinterval(1e-5)
+    wrapped = m_pytask.PythonTask.pythontask(_mark)
+    results, errs = dict(), list()
+
+    def submitter(k):
+        import random
+        r = random.Random(seed + k)
+        try:
+            for j in range(r.randint(2, 5)):
+                tag  = 'th%d.%d' % (k, j)
+                x, y = r.randint(1, 10 ** 6), r.choice([0, 1, 5])
+                if r.random() < 0.5:
+                    enc = m_pytask.PythonTask(_mark, (tag, x), {'y': y})
+                else:
+                    enc = wrapped(tag, x, y=y, scale=2)
+                    x, y = x * 2, y * 2     # (x + y) * 2
+                results[tag] = (enc, '%s:%s' % (tag, x + y))
+                time.sleep(0)
+        except Exception as e:
+            errs.append('submitter %d: %r' % (k, e))
+
+    ts = [mt.Thread(target=submitter, args=[k], daemon=True,
+                    name='submit-%d' % k) for k in range(rng.choice([2, 3, 4]))]
+    try:
+        for t in ts: t.start()
+        for t in ts: t.join(timeout=30)
+    finally:
+        sys.setswitchinterval(old)
+        pert.stop()
+    res.count('encode_thread_histories')
+    ctx_ = {'seed': seed, 'errors': errs}
+    if any(t.is_alive() for t in ts):
+        res.inconc('encode threads still busy after 30 s')
+        return
+    for e in errs:
+        res.violation('encode-threads/raised', e, ctx_)
+        return
+    for tag, (enc, exp) in sorted(results.items()):
+        res.count('encode_thread_payloads_checked')
+        try:
+            f, a, k = m_pytask.PythonTask.get_func_attr(enc)
+            got = _call(f, a, k)
+        except Exception as e:
+            res.violation('encode-threads/decode-raised', '%s: %r' % (tag, e),
+                          ctx_)
+            return
+        if got != exp:
+            res.violation('encode-threads/foreign-payload', 'the payload '
+                          'thread %s built decodes to a call which gives %r, '
+                          'its own call gives %r' % (tag, got, exp), ctx_)
+            return
+
+
 def run(ctx):
 
     res  = Result()
     _setup(res)
     base = dict(_EVALS)
+
+    rng = ctx.rng('encode-threads')
+    for i in range(ctx.n(320, 16000)):
+        encode_threads(res, rng, i)
+        if len(res.violations) > 5:
+            break
 
     def sample(case):
         kinds = {s.get('kind') for s in res.samples}
